@@ -1,4 +1,5 @@
 import PharmpyModel.C16.Ctx
+import PharmpyModel.C16.ResultLog
 /-
   C16 — workloads: sequences of API calls, their flattened operation trace,
   and crash states of a workload.
